@@ -160,6 +160,15 @@ func c10Prepare(c *Ctx, sc *c10Scenario, idx int) error {
 		if sc.Opt, err = c10DecodePatch(out); err != nil {
 			return fmt.Errorf("C10: decode of optimized patch %s: %v", sc.Name, err)
 		}
+		hasBsdiff := false
+		for _, m := range sc.Opt.Msgs {
+			if _, ok := m.(*pwr.BsdiffHeader); ok {
+				hasBsdiff = true
+			}
+		}
+		if !hasBsdiff {
+			sc.Opt = nil // the optimizer kept every series as it was: nothing the plain stream does not have
+		}
 	}
 	// overlay: first changed file pair with the same path, else first old / first new file
 	var o, n []byte
@@ -312,28 +321,35 @@ func c10PatchMuts(s *c10Stream) []c10Mut {
 				add("bh.targetIndex", fmt.Sprintf("msg %d BsdiffHeader.targetIndex=%d", i, v), func(s *c10Stream) { s.Msgs[i].(*pwr.BsdiffHeader).TargetIndex = v })
 			}
 		case *bsdiff.Control:
+			// "-mid": another control is applied afterwards, i.e. the offset this one leaves is used
+			mid := ""
+			if i+1 < len(s.Msgs) {
+				if nx, ok := s.Msgs[i+1].(*bsdiff.Control); ok && !nx.Eof {
+					mid = "-mid"
+				}
+			}
 			for _, v := range c10Uniq([]int64{-1, 1, -c10Big62, c10Big62, -(maxTsize + 1), maxTsize, maxTsize + 1, 1<<63 - 1, -1 << 63}) {
 				v := v
 				if v == x.Seek {
 					continue
 				}
-				add("ctl.seek", fmt.Sprintf("msg %d Control.seek=%d", i, v), func(s *c10Stream) { s.Msgs[i].(*bsdiff.Control).Seek = v })
+				add("ctl.seek"+mid, fmt.Sprintf("msg %d Control.seek=%d", i, v), func(s *c10Stream) { s.Msgs[i].(*bsdiff.Control).Seek = v })
 			}
 			for _, v := range c10Uniq([]int64{0, 1, int64(len(x.Add)) - 1, int64(len(x.Add)) + 1, maxTsize + 10}) {
 				v := v
 				if v < 0 || v == int64(len(x.Add)) {
 					continue
 				}
-				add("ctl.add", fmt.Sprintf("msg %d Control.add=%dB", i, v), func(s *c10Stream) { s.Msgs[i].(*bsdiff.Control).Add = make([]byte, v) })
+				add("ctl.add"+mid, fmt.Sprintf("msg %d Control.add=%dB", i, v), func(s *c10Stream) { s.Msgs[i].(*bsdiff.Control).Add = make([]byte, v) })
 			}
 			for _, v := range c10Uniq([]int64{0, 1, int64(len(x.Copy)) + 1}) {
 				v := v
 				if v == int64(len(x.Copy)) {
 					continue
 				}
-				add("ctl.copy", fmt.Sprintf("msg %d Control.copy=%dB", i, v), func(s *c10Stream) { s.Msgs[i].(*bsdiff.Control).Copy = make([]byte, v) })
+				add("ctl.copy"+mid, fmt.Sprintf("msg %d Control.copy=%dB", i, v), func(s *c10Stream) { s.Msgs[i].(*bsdiff.Control).Copy = make([]byte, v) })
 			}
-			add("ctl.eof", fmt.Sprintf("msg %d Control.eof flipped", i), func(s *c10Stream) { c := s.Msgs[i].(*bsdiff.Control); c.Eof = !c.Eof })
+			add("ctl.eof"+mid, fmt.Sprintf("msg %d Control.eof flipped", i), func(s *c10Stream) { c := s.Msgs[i].(*bsdiff.Control); c.Eof = !c.Eof })
 		}
 		// structural mutations at position i
 		add("struct.drop", fmt.Sprintf("drop msg %d (%s)", i, c10MsgString(m)), func(s *c10Stream) { s.Msgs = append(s.Msgs[:i:i], s.Msgs[i+1:]...) })
@@ -615,10 +631,21 @@ func (p *c10Plan) feederJob() *c10Job {
 	return j
 }
 
+// c10N: case counts per tier; the search tier (run by the pipeline after a correspondence break,
+// three times with other seeds) has the size of a quick run but mutates twice more often.
+func c10N(c *Ctx, quick, thorough int) int {
+	if c.Tier == "thorough" {
+		return thorough
+	}
+	return quick
+}
+
+func c10Deep(c *Ctx) bool { return c.Tier == "thorough" }
+
 func runC10(c *Ctx) error {
 	r := c.Rng.Fork()
 	scs := c10FixedScenarios(r.Fork())
-	nRand := c.N(2, 5)
+	nRand := c10N(c, 2, 5)
 	for i := 0; i < nRand; i++ {
 		cr := r.Fork()
 		old, nw, rel := lib.GenPair(cr, lib.PairOpts{MaxFiles: 4, MaxSize: 3 * lib.BS, Links: true})
@@ -651,7 +678,7 @@ func runC10(c *Ctx) error {
 	c10Corpus(scs, addPlan)
 
 	// --- field-level mutations ---
-	perBase := c.N(40, 250)
+	perBase := c10N(c, 40, 250)
 	for _, sc := range scs {
 		type baseT struct {
 			name string
@@ -687,7 +714,7 @@ func runC10(c *Ctx) error {
 			}
 			order := c10Shuffle(cr, len(b.muts))
 			// keep every mutation class represented: stable-sort the shuffled order round-robin by class
-			order = c10RoundRobin(cr, order, func(i int) string { return b.muts[i].Class })
+			order = c10RoundRobin(cr, order, func(i int) string { return b.muts[i].Class }, b.name == "opt")
 			budget := perBase
 			if b.name == "sig" || b.name == "ovl" {
 				budget = perBase / 2
@@ -707,7 +734,7 @@ func runC10(c *Ctx) error {
 				desc := m.Desc
 				cls := m.Class
 				// thorough: sometimes a second independent mutation on top
-				if c.Thorough() && cr.Chance(1, 4) {
+				if (c10Deep(c) && cr.Chance(1, 4)) || (c.Tier == "search" && cr.Chance(1, 2)) {
 					var m2s []c10Mut
 					switch b.name {
 					case "sig":
@@ -778,11 +805,11 @@ func runC10(c *Ctx) error {
 					}
 				}
 				offs := map[int]bool{}
-				every := c.N(260, 500)
-				if sc.Name != "tiny" && !c.Thorough() {
+				every := c10N(c, 260, 500)
+				if sc.Name != "tiny" && !c10Deep(c) {
 					every = 0
 				}
-				if b.name == "opt" && fr.Algo != pwr.CompressionAlgorithm_NONE && !c.Thorough() {
+				if b.name == "opt" && fr.Algo != pwr.CompressionAlgorithm_NONE && !c10Deep(c) {
 					every = 0 // (32 MiB LRU cache per case, see above)
 				}
 				if len(full) <= every {
@@ -790,7 +817,7 @@ func runC10(c *Ctx) error {
 						offs[o] = true
 					}
 				} else {
-					if c.Thorough() {
+					if c10Deep(c) {
 						for o := 0; o < 48 && o < len(full); o++ {
 							offs[o] = true
 							offs[len(full)-1-o] = true
@@ -798,12 +825,12 @@ func runC10(c *Ctx) error {
 					}
 					for _, e := range ends { // around every frame boundary
 						for d := -1; d <= 1; d++ {
-							if e+d >= 0 && e+d < len(full) && (c.Thorough() || cr.Chance(1, 6)) {
+							if e+d >= 0 && e+d < len(full) && (c10Deep(c) || cr.Chance(1, 6)) {
 								offs[e+d] = true
 							}
 						}
 					}
-					for k := 0; k < c.N(8, 60); k++ {
+					for k := 0; k < c10N(c, 8, 60); k++ {
 						offs[cr.Intn(len(full))] = true
 					}
 				}
@@ -812,7 +839,7 @@ func runC10(c *Ctx) error {
 					sorted = append(sorted, o)
 				}
 				sort.Ints(sorted)
-				if max := c.N(260, 500); len(sorted) > max { // thin out evenly, keep the ends
+				if max := c10N(c, 260, 500); len(sorted) > max { // thin out evenly, keep the ends
 					var t []int
 					for k := 0; k < max; k++ {
 						t = append(t, sorted[k*len(sorted)/max])
@@ -820,7 +847,7 @@ func runC10(c *Ctx) error {
 					sorted = t
 				}
 				for _, o := range sorted {
-					if fr.Algo != pwr.CompressionAlgorithm_NONE && !c.Thorough() && len(full) <= every && o%2 == 1 && o > 16 && o < len(full)-8 {
+					if fr.Algo != pwr.CompressionAlgorithm_NONE && !c10Deep(c) && len(full) <= every && o%2 == 1 && o > 16 && o < len(full)-8 {
 						continue // compressed framing, quick tier: every other offset
 					}
 					feeders := c10FeedersFor(b.name, cr, false)
@@ -869,7 +896,8 @@ func runC10(c *Ctx) error {
 
 // c10RoundRobin reorders a shuffled index list so that the mutation classes take turns (in an
 // order drawn per base stream): a small budget still meets every class over a few scenarios.
-func c10RoundRobin(r *lib.Rng, order []int, key func(int) string) []int {
+// With bsdiffFirst the classes that only a bsdiff series has (bh.*, ctl.*) come first in every turn.
+func c10RoundRobin(r *lib.Rng, order []int, key func(int) string, bsdiffFirst bool) []int {
 	buckets := map[string][]int{}
 	var keys []string
 	for _, i := range order {
@@ -886,6 +914,13 @@ func c10RoundRobin(r *lib.Rng, order []int, key func(int) string) []int {
 		shuffled[i] = keys[j]
 	}
 	keys = shuffled
+	if bsdiffFirst {
+		sort.SliceStable(keys, func(i, j int) bool {
+			pi := strings.HasPrefix(keys[i], "bh.") || strings.HasPrefix(keys[i], "ctl.")
+			pj := strings.HasPrefix(keys[j], "bh.") || strings.HasPrefix(keys[j], "ctl.")
+			return pi && !pj
+		})
+	}
 	var out []int
 	for len(out) < len(order) {
 		for _, k := range keys {
